@@ -104,8 +104,10 @@ def run_tlc(module: str, cfg: str, *, env: dict | None = None, workers: int = 16
                 r.violated.append(line)
     r.ok = "No error has been found" in out or (simulate is not None and "Error:" not in out)
     if not r.ok and not r.violated and not (allow_fail and r.lines):
-        tail = "\n".join(l for l in out.splitlines() if not l.startswith('"@@'))[-3000:]
-        raise MachineryError(f"TLC failed on {module}/{cfg}:\n{tail}")
+        plain = [l for l in out.splitlines() if not l.startswith('"@@')]
+        errs = [l for i, l in enumerate(plain) if l.startswith("Error:") or (i > 0 and plain[i - 1].startswith("Error:"))]
+        tail = "\n".join(plain)[-1500:]
+        raise MachineryError(f"TLC failed on {module}/{cfg}:\n" + "\n".join(errs[:12]) + "\n...\n" + tail)
     return r
 
 
